@@ -276,9 +276,11 @@ func runC02(c *Ctx) {
 	tw := PlanTunnels(c, TunOpts{N: 1, Transports: []string{"ws", "legacy"}})
 	tw.Cfg.Hosts = append(tw.Cfg.Hosts, "host-a.test:3389")
 	tw.Cfg.SmartCardAuth = c.T.Bool(1, 3)
+	jwtAT := c.T.Bool(1, 3) // the provider's access tokens are JWTs under its published keys
 	if !BootTun(c, tw, false) {
 		return
 	}
+	c.W.IdP.JWTAccessTokens = jwtAT
 	key := []byte(tw.Cfg.PAASigningKey)
 	p0 := tw.Plans[0]
 	ip := clientIP(p0.From)
